@@ -17,6 +17,7 @@ import hashlib
 import os
 import shutil
 import types
+import unicodedata
 
 from vlib import Err
 
@@ -126,8 +127,46 @@ def _witnesses(backend, fmt="2a"):
     return out
 
 
+def _renorm_witnesses():
+    """pairs that differ ONLY in Unicode normalisation of one attested string: the texts must differ"""
+    out = []
+    nfd, nfc = "cafe\u0301", "caf\u00e9"
+    for backend in ("repo", "synth"):
+        for variant in ("plain", "strict", "strict3"):
+            base = _data(_rev(message="m", committer="Zo\u00eb <z@example.com>", props=[("branch-nick", "trunk"), ("k", nfc)]),
+                         [_ent("symlink", "l", "l-id", target=nfd)])
+            b = _copy(base); b["rest"][0]["target"] = nfc
+            out.append({"backend": backend, "fmt": "2a", "fmt_b": "2a", "variant": variant, "mode": "perturb",
+                        "what": "target", "renorm": True, "a": base, "b": b})
+        for what in ("message", "committer", "revprop"):
+            base = _data(_rev(message=nfc, committer=nfc + " <z@example.com>", props=[("branch-nick", "trunk"), ("k", nfc)]), [])
+            b = _copy(base)
+            if what == "message":
+                b["rev"]["message"] = nfd
+            elif what == "committer":
+                b["rev"]["committer"] = nfd + " <z@example.com>"
+            else:
+                b["rev"]["props"][1][1] = nfd
+            out.append({"backend": backend, "fmt": "pack-0.92", "fmt_b": "pack-0.92", "variant": "strict3", "mode": "perturb",
+                        "what": what, "renorm": True, "a": base, "b": b})
+    for what in ("parents", "file_id", "path", "revision_id"):
+        base = _data(_rev(id="r-" + nfc, parents=["p-" + nfc]), [_ent("file", "d-" + nfc, "f-" + nfc, sha1="0" * 40, revision="x")])
+        b = _copy(base)
+        if what == "parents":
+            b["rev"]["parents"] = ["p-" + nfd]
+        elif what == "file_id":
+            b["rest"][0]["fid"] = "f-" + nfd
+        elif what == "path":
+            b["rest"][0]["path"] = "d-" + nfd
+        else:
+            b["rev"]["id"] = "r-" + nfd
+        out.append({"backend": "synth", "fmt": "2a", "fmt_b": "2a", "variant": "strict", "mode": "perturb",
+                    "what": what, "renorm": True, "a": base, "b": b})
+    return out
+
+
 def corpus():
-    out = _witnesses("repo") + _witnesses("synth")
+    out = _witnesses("repo") + _witnesses("synth") + _renorm_witnesses()
     # past modelling pitfalls / boundary inputs (synthetic backend)
     for msg in ["", "\n", "\r\n", "a\r\nb", "a\n\rb", "a\x0bb\x0cc\x1cd\x1de\x1ef\x85g h i", "é€\U0001f600", "a\n\n"]:
         d = _data(_rev(message=msg), [])
@@ -143,13 +182,15 @@ def corpus():
 # ------------------------------------------------------------------ generators
 
 ASCII = "abcxyz019-_.@<>:"
-WIDE = ["é", "€", "\U0001f600", "߿", "ࠀ", "￿", "\U00010000", "\x7f", "\x80"]
+WIDE = ["é", "€", "\U0001f600", "߿", "ࠀ", "￿", "\U00010000", "\x7f", "\x80",
+        # not NFC / decomposed / combining / compatibility forms (an attested string must be attested verbatim)
+        "e\u0301", "A\u030a", "\u212b", "\ufb01", "\u0301", "\u1e9b\u0323", "\u2126", "o\u0308\u0304"]
 BREAKS = ["\n", "\r", "\r\n", "\x0b", "\x0c", "\x1c", "\x1d", "\x1e", "\x85", " ", " "]
 WS = [" ", "\t", "\n", "\r", "\x0b", "\x0c"]
 
 
 SAFE = "abcxyz019-_."            # what XML serialisation, file systems and revision-id rules all accept
-SAFEWIDE = ["é", "€", "\U0001f600", "ß"]
+SAFEWIDE = ["é", "€", "\U0001f600", "ß", "e\u0301", "A\u030a", "\u212b", "\ufb01", "\u2126"]
 _safe = [False]
 
 
@@ -262,6 +303,7 @@ def _gen_repo1(rng):
         kind = rng.choice(["file", "file", "directory", "symlink"])
         parent = rng.choice(dirs)
         name = _word(rng, 1, 3, 0.15) + (" " + _word(rng, 1, 2, 0.0) if rng.random() < 0.25 else "")
+        name = unicodedata.normalize("NFC", name)      # versioned file names are NFC; symlink targets are verbatim
         path = (parent + "/" if parent else "") + name
         if path in used or name in (".", "..") or name.lower().startswith(".bzr"):
             continue
@@ -305,7 +347,41 @@ def _perturb(rng, d, backend, variant):
         _safe[0] = False
 
 
+def _renorm(rng, x):
+    """a different but canonically / compatibility equivalent string, or None"""
+    c = sorted({unicodedata.normalize(f, x) for f in ("NFC", "NFD", "NFKC", "NFKD")} - {x})
+    return rng.choice(c) if c else None
+
+
+def _perturb_renorm(rng, b, backend):
+    """change only the Unicode normalisation of one attested string"""
+    r, ents = b["rev"], b["rest"]
+    slots = [("message", r, "message"), ("committer", r, "committer")]
+    slots += [("revprop", p, 1) for p in r["props"]]
+    slots += [("target", e, "target") for e in ents if e["kind"] == "symlink" and e["target"]]
+    if backend == "synth":
+        slots += [("parents", r["parents"], i) for i in range(len(r["parents"]))]
+        slots += [("file_id", e, "fid") for e in ents] + [("path", e, "path") for e in ents]
+        slots += [("revision_id", r, "id")]
+    rng.shuffle(slots)
+    for what, holder, key in slots:
+        new = _renorm(rng, holder[key])
+        if new is None:
+            continue
+        if backend == "repo" and what == "revprop" and _repo_value(new) != new:
+            continue
+        if what == "parents" and new in holder:
+            continue
+        holder[key] = new
+        return what, b
+    return None
+
+
 def _perturb1(rng, d, backend, variant):
+    if rng.random() < 0.3:
+        p = _perturb_renorm(rng, _copy(d), backend)
+        if p is not None:
+            return p[0] + "~unicode-normalisation", p[1]
     b = _copy(d)
     r = b["rev"]
     cands = list(FIELDS_REV)
